@@ -1,10 +1,10 @@
 #!/bin/bash
-# seed_verify.sh <ID> <N> : confirm a seeded change produced by a sub-agent in /tmp/wt/<ID>/out/<N>/
+# [SRCROOT=/tmp/s2 OFFSET=2] seed_verify.sh <ID> <N> : confirm a seeded change produced by a sub-agent in $SRCROOT/<ID>/out/<N>/ (stored as <ID>-<N+OFFSET>)
 # (clean tree: demo passes; patched: builds, suite passes, demo fails), run all 20 checks against it,
 # and store it as /verif/seeded/<ID>-<N>/ {patch.diff, demo_test.go, meta.json}.
 set -u
 export GOFLAGS=-mod=mod GOPROXY=off GOSUMDB=off GOTOOLCHAIN=local
-ID=$1; N=$2; SRC=/tmp/wt/$ID/out/$N
+ID=$1; N=$2; SRC=${SRCROOT:-/tmp/wt}/$ID/out/$N; SN=$((N+${OFFSET:-0}))
 [ -f $SRC/patch.diff ] || { echo "no patch in $SRC"; exit 2; }
 BASE=HEAD
 git -C /repo apply --check $SRC/patch.diff 2>/dev/null || BASE=08bd7f5
@@ -23,17 +23,17 @@ demo=$(go test -vet=off -count=1 -run "^($TESTS)\$" ./$DIR 2>&1); drc=$?; demo=$
 rm $W/$DIR/zz_seed_demo_test.go
 suite=$(go test -vet=off -count=1 ./... 2>&1 | grep -E "^(FAIL|---|panic)" | head -3); src=$?
 suiteok=1; [ -n "$suite" ] && suiteok=0
-echo "$ID-$N base=$BASE clean_demo_rc=$crc build_rc=$brc patched_demo_rc=$drc suite_ok=$suiteok"
+echo "$ID-$SN base=$BASE clean_demo_rc=$crc build_rc=$brc patched_demo_rc=$drc suite_ok=$suiteok"
 if [ $crc -ne 0 ] || [ $brc -ne 0 ] || [ $drc -eq 0 ] || [ $suiteok -ne 1 ]; then echo "NOT CONFIRMED: $clean | $demo | $suite"; exit 1; fi
 # run the checks against the change (in /repo itself, restored afterwards)
 cd /verif
 caught=""
 if [ "$BASE" = HEAD ]; then OUT=$(./selftest/try.sh $SRC/patch.diff $(seq -f 'C%02g' 1 20)); else OUT=$(./selftest/try.sh -B $BASE $SRC/patch.diff $(seq -f 'C%02g' 1 20)); fi
 caught=$(echo "$OUT" | grep -E "^== C[0-9]+ exit=1" | awk '{print $2}' | paste -sd' ')
-mkdir -p /verif/seeded/$ID-$N
-cp $SRC/patch.diff /verif/seeded/$ID-$N/patch.diff
-cp $SRC/demo_test.go /verif/seeded/$ID-$N/demo_test.go
-python3 - "$ID" "$N" "$BASE" "$DIR" "$TESTS" "$caught" "$SRC" <<'PY'
+mkdir -p /verif/seeded/$ID-$SN
+cp $SRC/patch.diff /verif/seeded/$ID-$SN/patch.diff
+cp $SRC/demo_test.go /verif/seeded/$ID-$SN/demo_test.go
+python3 - "$ID" "$SN" "$BASE" "$DIR" "$TESTS" "$caught" "$SRC" <<'PY'
 import json,sys,re,subprocess
 ID,N,BASE,DIR,TESTS,caught,SRC=sys.argv[1:8]
 notes=open(SRC+"/notes.md").read()
